@@ -69,7 +69,10 @@ def run_case(case):
     if any(not t for t, a in desc[1:]):
         res.label("inner_or_trailing_empty_run")
     near = {d + k for d in interior for k in (-1, 0, 1)}
-    str_before = str(f)
+    str_before, e0 = call(str, f)
+    if e0 is not None:
+        res.viol("str_of_receiver_raised", error=exc_str(e0), desc=desc)
+        return res
     evals = 0
     if n <= 12:
         pts = list(range(0, n + 3))
